@@ -354,6 +354,15 @@ func mutate(s, op string, n int) string {
 			return "x"
 		}
 		return t[:len(t)-1]
+	case "inner": // a space inside the text, after n characters
+		if len(s) < 2 {
+			return s
+		}
+		i := 1 + (n+len(s)-1)%(len(s)-1)
+		if n > 0 && n < len(s) {
+			i = n
+		}
+		return s[:i] + " " + s[i:]
 	case "upper":
 		return strings.ToUpper(s)
 	case "tail":
@@ -530,10 +539,14 @@ func (r *Run) exec(s SymStep) StepRec {
 			Query: r.resolveKVs(s.Req.Query), Form: r.resolveKVs(s.Req.Form), BadBody: s.Req.BadBody, RawOverride: s.Req.RawQuery, Hdr: s.Req.Hdr}
 		q.fill()
 		browser = q.Browser
-		code := ""
-		for _, kv := range q.Form {
-			if kv[0] == "code" {
-				code = kv[1]
+		code, haveCode := "", false
+		merged := append([][2]string{}, q.Form...)
+		if !w.cfg.API { // the body reader reads the merged form: body first, then the URL query
+			merged = append(merged, q.Query...)
+		}
+		for _, kv := range merged {
+			if kv[0] == "code" && !haveCode {
+				code, haveCode = kv[1], true
 			}
 			// a typed password is a secret when it is (or becomes) an account's password; a stored
 			// field replayed as a password is not
